@@ -19,18 +19,21 @@ Prog(ms) == [mods |-> ms, ignoreNS |-> FALSE]
 
 \* ---- S_aug: a base module and augmenting modules -------------------------------------
 BaseBody(cfgC) ==
-  << Stmt("grouping", "g", << Stmt("container", "gc", << Leaf("gl") >>) >>),
+  << Stmt("grouping", "g", << Stmt("container", "gc", << Leaf("gl") >>), Stmt("container", "ge", <<>>) >>),
      Stmt("container", "c", (IF cfgC = "unset" THEN <<>> ELSE << Cfg(cfgC) >>) \o
           << Leaf("l"),
              Stmt("container", "d", <<>>),
-             Stmt("choice", "ch", << Stmt("case", "k", << Leaf("kl") >>), Leaf("sh") >>),
+             Stmt("choice", "ch", << Stmt("case", "k", << Leaf("kl") >>), Leaf("sh"), Stmt("container", "sc", <<>>) >>),
              Uses("", "g"),
+             Stmt("action", "act", <<>>),
              Stmt("leaf-list", "ll", << Stmt("type", "string", <<>>) >>) >>),
      Stmt("container", "e", << Uses("", "g") >>),
      Stmt("list", "li", << Stmt("key", "k", <<>>), Leaf("k") >>),
      Stmt("rpc", "r", << Stmt("input", "input", << Leaf("i"), Stmt("choice", "rc", << Leaf("rs") >>) >>),
                          Stmt("output", "output", << Leaf("o") >>) >>),
      Stmt("rpc", "r2", <<>>),
+     Stmt("rpc", "r3", << Stmt("output", "output", << Leaf("o3"), Stmt("choice", "oc", << Leaf("os") >>) >>) >>),
+     Stmt("anyxml", "ax", <<>>),
      Stmt("notification", "n", << Leaf("nl") >>) >>
 BaseA(cfgC) == Mod("a", NoImp, <<>>, BaseBody(cfgC))
 
@@ -39,6 +42,7 @@ Targets == { << Q("a","c") >>,
              << Q("a","c"), Q("a","ch") >>,
              << Q("a","c"), Q("a","ch"), Q("a","k") >>,
              << Q("a","c"), Q("a","gc") >>,
+             << Q("a","c"), Q("a","ge") >>,          \* an empty container copied from a grouping that is used twice
              << Q("a","c"), Q("b","x") >>,
              << Q("a","c"), Q("b","x"), Q("b","xc") >>,
              << Q("a","c"), Q("a","nosuch") >>,
@@ -70,6 +74,25 @@ ImpAB == [x \in {"a", "b"} |-> x]
 ModB(augs) == Mod("b", ImpA, <<>>, << Stmt("grouping", "bg", << Leaf("bgl") >>), Stmt("container", "bdata", << Leaf("bl") >>) >> \o augs)
 ModC(augs) == Mod("c", ImpAB, <<>>, << Stmt("container", "cdata", << Leaf("cl") >>) >> \o augs)
 
+\* targets that are not augmentable (anyxml, an rpc itself), the unwritten input / output of an action, a shorthand
+\* container reached directly and through its implicit case (resolves only once the implicit cases exist), payloads
+\* that bring a choice with a shorthand member (grafted late, it still needs its implicit case)
+ChoicePayload == << Stmt("choice", "pc", << Leaf("ps") >>) >>
+LateTargets == { << Q("a","ax") >>, << Q("a","r") >>,
+                 << Q("a","c"), Q("a","ch"), Q("a","sc") >>,
+                 << Q("a","c"), Q("a","ch"), Q("a","sc"), Q("a","sc") >>,
+                 << Q("a","c"), Q("a","act"), Q("a","input") >>,
+                 << Q("a","c"), Q("a","act"), Q("a","output") >>,
+                 << Q("a","r3"), Q("a","output"), Q("a","oc") >>,
+                 << Q("a","c") >> }
+LateChain == { << Q("a","c"), Q("a","ch"), Q("a","sc"), Q("a","sc") >>,
+               << Q("a","c"), Q("a","ch"), Q("a","sc"), Q("a","sc"), Q("b","x") >>,
+               << Q("a","c"), Q("a","ch"), Q("a","sc"), Q("a","sc"), Q("b","pc") >>,
+               << Q("a","c"), Q("b","pc") >>,
+               << Q("a","c"), Q("b","x") >> }
+SAugLate(dummy) ==
+  { Prog(("a" :> BaseA("unset")) @@ ("b" :> ModB(<<Aug(t1, p1)>>)) @@ ("c" :> ModC(<<Aug(t2, p2)>>))) :
+      t1 \in LateTargets, p1 \in {<< Leaf("y") >>, XPayload, ChoicePayload}, t2 \in LateChain, p2 \in {<< Leaf("y") >>, ChoicePayload} }
 SAugQuick(dummy) ==
   { Prog(("a" :> BaseA(cc)) @@ ("b" :> ModB(<<Aug(t1, p1)>>)) @@ ("c" :> ModC(<<Aug(t2, p2)>>))) :
       cc \in {"unset", "false"}, t1 \in Targets, p1 \in Payloads("b"), t2 \in ChainTargets, p2 \in ChainPayloads }
@@ -151,30 +174,38 @@ Shape(k) ==       \* bodies of the grouping g1
     [] k = 4 -> << Stmt("container", "k1", << Leaf("x"), Stmt("grouping", "g2", << Leaf("inner2") >>), Uses("", "g2") >>) >>
     [] k = 5 -> << Stmt("container", "k1", << Leaf("x"),
                       Stmt("action", "act", << Stmt("input", "input", << Leaf("ai") >>), Stmt("output", "output", << Leaf("ao"), Uses("", "g2") >>) >>) >>) >>
+    [] k = 6 -> << Stmt("container", "k1", << Leaf("x"), Stmt("container", "ext", <<>>) >>) >>       \* an empty container inside
+    [] k = 7 -> << Stmt("container", "k1", << Stmt("if-feature", "f1", <<>>), Stmt("if-feature", "f2", <<>>), Stmt("if-feature", "f3", <<>>),
+                                               Stmt("leaf-list", "bl", << Stmt("type", "string", <<>>), Stmt("min-elements", 1, <<>>), Stmt("max-elements", 8, <<>>) >>),
+                                               Leaf("x") >>) >>
 G1(k) == Stmt("grouping", "g1", Shape(k))
 \* where g1 (and the g2 next to it) is defined: d's top level, d's submodule, u's top level, u's submodule
 DefD == << Stmt("grouping", "g2", << Leaf("d2") >>) >>
 UseSite(site, ref) ==     \* a statement of u that uses ref at the given kind of place
-  CASE site = "top" -> Stmt("container", "s_" \o site, << ref >>)      \* (kept inside a container so that two sites never collide)
+  CASE site = "top" -> Stmt("container", "s_" \o site, << [ref EXCEPT !.kids = << Stmt("if-feature", "fa", <<>>) >>] >>)      \* (kept inside a container so that two sites never collide)
     [] site = "list" -> Stmt("list", "s_list", << Stmt("key", "kk", <<>>), Leaf("kk"), ref >>)
     [] site = "input" -> Stmt("rpc", "s_rpc", << Stmt("input", "input", << ref >>) >>)
     [] site = "notif" -> Stmt("notification", "s_notif", << ref >>)
     [] site = "nested" -> Stmt("container", "s_nested", << Stmt("grouping", "gw", << ref >>), Stmt("uses", Q("", "gw"), <<>>) >>)
     [] site = "case" -> Stmt("choice", "s_choice", << Stmt("case", "s_case", << ref >>) >>)
+    [] site = "cfgfalse" -> Stmt("container", "s_cf", << Cfg("false"), [ref EXCEPT !.kids = << Stmt("if-feature", "fb", <<>>) >>] >>)   \* uses with a constraint of its own
 SitePath(site) ==
   CASE site = "top" -> << Q("u","s_top") >> [] site = "list" -> << Q("u","s_list") >>
     [] site = "input" -> << Q("u","s_rpc"), Q("u","input") >> [] site = "notif" -> << Q("u","s_notif") >>
     [] site = "nested" -> << Q("u","s_nested") >> [] site = "case" -> << Q("u","s_choice"), Q("u","s_case") >>
-Sites == {"top", "list", "input", "notif", "nested", "case"}
+    [] site = "cfgfalse" -> << Q("u","s_cf") >>
+Sites == {"top", "list", "input", "notif", "nested", "case", "cfgfalse"}
 ImpD == [x \in {"d"} |-> "d"]
 ImpU == [x \in {"u"} |-> "u"]
 UsesProg(k, def, s1, s2, mut) ==
   LET ref == IF def \in {"d", "ds"} THEN Uses("d", "g1") ELSE IF def = "dd" THEN Uses("dd", "g1") ELSE Uses("", "g1")
+      \* def = "wrap": u's own g1 wraps d's grouping of the same name
       \* u has a g2 of its own: names inside g1 must not bind to it when g1 lives in d
       uOwn == << Stmt("grouping", "g2", << Leaf("u2") >>) >>
-      uBody == (IF def = "u" THEN << G1(k) >> ELSE <<>>) \o uOwn \o << UseSite(s1, ref) >> \o (IF s2 # s1 THEN << UseSite(s2, ref) >> ELSE <<>>)
+      uBody == (IF def = "u" THEN << G1(k) >> ELSE <<>>)
+               \o (IF def = "wrap" THEN << Stmt("grouping", "g1", << Uses("d", "g1"), Leaf("wy") >>) >> ELSE <<>>) \o uOwn \o << UseSite(s1, ref) >> \o (IF s2 # s1 THEN << UseSite(s2, ref) >> ELSE <<>>)
       \* when g1 lives in module dd (prefix dd), module d (prefix d, imported first) holds a decoy of the same name
-      dBody == DefD \o (IF def = "d" THEN << G1(k) >> ELSE <<>>)
+      dBody == DefD \o (IF def \in {"d", "wrap"} THEN << G1(k) >> ELSE <<>>)
                     \o (IF def = "dd" THEN << Stmt("grouping", "g1", << Leaf("decoy") >>) >> ELSE <<>>)
       target == SitePath(s1) \o << Q("u", "k1") >>
       wBody == CASE mut = "none" -> <<>>
@@ -183,6 +214,9 @@ UsesProg(k, def, s1, s2, mut) ==
                  [] mut = "config" -> << Stmt("deviation", target, << Stmt("deviate", "add", << Cfg("false") >>) >>) >>
                  [] mut = "maxelem" -> << Stmt("deviation", target, << Stmt("deviate", "replace", << Stmt("max-elements", 2, <<>>) >>) >>) >>
                  [] mut = "inaction" -> << Aug(target \o << Q("u", "act"), Q("u", "input") >>, << Leaf("grafted") >>) >>
+                 [] mut = "inext" -> << Aug(target \o << Q("u", "ext") >>, << Leaf("grafted") >>) >>
+                 [] mut = "llbounds" -> << Stmt("deviation", target \o << Q("u", "bl") >>,
+                                                << Stmt("deviate", "replace", << Stmt("min-elements", 2, <<>>), Stmt("max-elements", 4, <<>>) >>) >>) >>
       u == Mod("u", IF def = "dd" THEN [x \in {"d", "dd"} |-> x] ELSE ImpD, IF def = "us" THEN <<"us">> ELSE <<>>, uBody)
       d == Mod("d", NoImp, IF def = "ds" THEN <<"ds">> ELSE <<>>, dBody)
       w == Mod("w", ImpU, <<>>, wBody)
@@ -190,17 +224,24 @@ UsesProg(k, def, s1, s2, mut) ==
           @@ (IF def = "us" THEN ("us" :> Sub("us", "u", ImpD, <<>>, << G1(k) >>)) ELSE << >>)
           @@ (IF def = "dd" THEN ("dd" :> Mod("dd", NoImp, <<>>, << Stmt("grouping", "g2", << Leaf("dd2") >>), G1(k) >>)) ELSE << >>)
           @@ (IF def = "ds" THEN ("ds" :> Sub("ds", "d", NoImp, <<>>, << G1(k), Stmt("grouping", "g2", << Leaf("ds2") >>) >>)) ELSE << >>))
+MutOK(k, mut) == /\ mut = "inext" => k = 6
+                 /\ mut = "llbounds" => k = 7
+                 /\ mut = "inaction" => k = 5
+                 /\ mut = "maxelem" => k \in {1, 2}
+Muts == {"none", "augment", "notsupp", "config", "maxelem", "inaction", "inext", "llbounds"}
+Defs == {"d", "ds", "u", "dd", "wrap"}
 SUses(dummy) ==
-  { UsesProg(k, def, s1, s2, mut) : k \in 1..5, def \in {"d", "ds", "u", "dd"}, s1 \in Sites, s2 \in Sites,
-                                    mut \in {"none", "augment", "notsupp", "config", "maxelem", "inaction"} }
+  { UsesProg(k[1], def, s1, s2, k[2]) : k \in {x \in (1..7) \X Muts : MutOK(x[1], x[2])}, def \in Defs, s1 \in Sites, s2 \in Sites }
 SUsesQuick(dummy) ==
-  { UsesProg(k, def, s1, s2, mut) : k \in 1..5, def \in {"d", "ds", "u", "dd"}, s1 \in {"top", "nested", "case"}, s2 \in {"top", "list", "notif"},
-                                    mut \in {"none", "augment", "notsupp", "config", "maxelem", "inaction"} }
+  { UsesProg(k[1], def, s1, s2, k[2]) : k \in {x \in (1..7) \X Muts : MutOK(x[1], x[2])}, def \in Defs,
+                                        s1 \in {"top", "nested", "case"}, s2 \in {"top", "list", "notif", "cfgfalse"} }
 
 \* ---- S_dev: deviations (C08) -----------------------------------------------------------
 S1(kw, arg) == Stmt(kw, arg, <<>>)
 DevBase ==
-  << Stmt("grouping", "g", << LeafD("gl", "gd") >>),
+  << Stmt("grouping", "g", << LeafD("gl", "gd"),
+                              Stmt("leaf-list", "gll", << S1("type", "string"), S1("min-elements", 2), S1("max-elements", 5) >>) >>),
+     Stmt("rpc", "rp", << Stmt("input", "input", << Leaf("ri") >>), Stmt("output", "output", << Leaf("ro"), Leaf("ro2") >>) >>),
      LeafD("ld", "dv"),
      Leaf("ln"),
      Stmt("leaf", "lm", << S1("type", "string"), S1("mandatory", "true") >>),
@@ -215,6 +256,9 @@ DevTargets ==     \* [path, kind]
     [p |-> << Q("a","ll") >>, k |-> "leaf-list"], [p |-> << Q("a","lld") >>, k |-> "leaf-listd"],
     [p |-> << Q("a","li") >>, k |-> "list"], [p |-> << Q("a","co") >>, k |-> "container"],
     [p |-> << Q("a","u"), Q("a","gl") >>, k |-> "leafd"],
+    [p |-> << Q("a","u"), Q("a","gll") >>, k |-> "leaf-list"],          \* one of two copies of a grouping's leaf-list
+    [p |-> << Q("a","rp"), Q("a","input") >>, k |-> "io"],
+    [p |-> << Q("a","rp"), Q("a","output"), Q("a","ro") >>, k |-> "leaf"],
     [p |-> << Q("a","co"), Q("b","grafted") >>, k |-> "leafd"],
     [p |-> << Q("a","nosuch") >>, k |-> "absent"] }
 Dv(kind, kids) == Stmt("deviate", kind, kids)
@@ -236,7 +280,7 @@ DevInClaim(k, d) ==
   /\ (Has(d.kids, "default") /\ d.arg = "replace") => k \in {"leafd", "leaf-listd"} \* replace where none exists
   /\ (Has(d.kids, "default") /\ d.arg = "add") => Leafish(k)
   /\ (Has(d.kids, "type") \/ Has(d.kids, "units") \/ Has(d.kids, "mandatory")) => Leafish(k)
-  /\ k = "absent" => d.arg = "not-supported"
+  /\ k \in {"absent", "io"} => d.arg = "not-supported"
 Dev(t, ds) == Stmt("deviation", t.p, ds)
 ModDevB == Mod("b", ImpA, <<>>, << Aug(<< Q("a","co") >>, << LeafD("grafted", "dv") >>) >>)
 ImpABv == [x \in {"a", "b"} |-> x]
@@ -293,7 +337,9 @@ SplitProg(asg, inc) ==
       b == Mod("b", [x \in {"m"} |-> "m"], <<>>, << Aug(<< Q("m","c2") >>, << Leaf("y") >>), Aug(<< Q("m","c1") >>, << Leaf("z") >>) >>)
       \* augments written inside the submodules, aimed at their own module through the belongs-to prefix
       s1Aug == << Aug(<< Q("m","c2") >>, << Leaf("from_s1") >>) >>
-      s2Aug == << Aug(<< Q("m","c1") >>, << Leaf("from_s2") >>), Aug(<< Q("m","li") >>, << Leaf("li_s2") >>) >>
+      \* ... and through an absolute path without prefixes (the submodule's text is the module's text)
+      s2Aug == << Aug(<< Q("m","c1") >>, << Leaf("from_s2") >>), Aug(<< Q("","li") >>, << Leaf("li_s2") >>),
+                  Stmt("deviation", << Q("","l1") >>, << Stmt("deviate", "add", << Stmt("units", "u", <<>>) >>) >>) >>
   IN Prog(("m" :> m) @@ ("s1" :> Sub("s1", "m", NoImp, s1Inc, Body(asg, "s1") \o s1Aug))
           @@ ("s2" :> Sub("s2", "m", NoImp, s2Inc, Body(asg, "s2") \o s2Aug)) @@ ("b" :> b))
 SSplit(dummy) == { SplitProg(asg, inc) : asg \in [1..4 -> {"m", "s1", "s2"}], inc \in {"flat", "nested", "both", "rev"} }
